@@ -53,7 +53,7 @@ func unitOfKind(r *RNG, h *hist, o histOpts, k int, fileNo *int, ts uint32) hUni
 		return hUnit{kind: "dml", stmt: genStmt(r, r.Pickstr("insert", "update", "delete"), o, ts)}
 	case 6:
 		*fileNo++
-		return hUnit{kind: r.Pickstr("rot", "rot", "rst"), file: fmt.Sprintf("bin.%06d", *fileNo)}
+		return hUnit{kind: r.Pickstr("rot", "rot", "rst"), file: fmt.Sprintf("bin.%06d", *fileNo*r.Pick(1, 1, 10, 100))}
 	case 7:
 		return hUnit{kind: "gt", sid: r.Bytes(16), gno: r.U64() >> 1}
 	case 8:
